@@ -58,7 +58,20 @@ fn gen_case(c: &mut Choices) -> Case {
         max_items: 7,
         ..GenParams::default()
     };
-    let project = gen_project(c, &p);
+    let mut project = gen_project(c, &p);
+    if c.chance(1, 6) {
+        // an output whose length sits on a read/write buffer boundary (8 KiB BufReader/BufWriter)
+        let len = *c.pick(&[8192usize, 8191, 8193, 16384, 8192 * 3]);
+        let mut s = String::new();
+        while s.len() + 65 <= len {
+            s.push_str("0123456789abcdef0123456789abcdef0123456789abcdef0123456789abcdef\n");
+        }
+        while s.len() + 1 < len {
+            s.push('x');
+        }
+        s.push('\n');
+        project.put("big.txtpp.txt", s);
+    }
     let build = RunOpts {
         mode: ModeS::Build,
         trailing_newline: !c.chance(1, 4),
